@@ -1,6 +1,8 @@
 import Dcg.Proofs.Sem
 import Dcg.Props.C03
 import Dcg.Props.C04
+import Dcg.Model.RefChildren
+import Dcg.Proofs.Repoint
 /-
 C14 — representation-only options do not change what the models accept.
 
@@ -195,5 +197,108 @@ theorem opts_invariant_false_D31 :
 example : routingSafe .plain (.dict (.scalar .integer false { minimum := some ⟨0, 0⟩ })) = false ∧
     routingSafe .plain (.array (.array (.scalar .integer false {}) (some 2) none) none none) = false := by
   decide +kernel
+
+/-! ### reference bookkeeping: how `reuse_model` (and the other passes that rewrite the uses of a model) find the uses
+
+`--reuse-model` drops an enum that renders like an earlier one and re-points the CHILDREN of its reference
+(`Reference.children`) to the kept one; what the written classes show are the USES — every `DataType` with a
+reference reachable from a member or a base-class list of a written model (`Dcg/Model/RefChildren.lean`; the loop
+and `replace_reference` are `Dcg.Model.Repoint` of C11). The theorems say when the two views agree. Their
+hypotheses — every use registered, every use of the dropped model takes part — are OBSERVED on the real parser
+after `parse_raw()` and after each pass, and `redirect` is compared with what the real `Parser.__reuse_model` did
+to every use (vlib/props/c14_refkids.py). -/
+section RefChildren
+open Dcg.Model.Repoint Dcg.Model.RefChildren Dcg.Proofs.Repoint
+
+/-- If every use is registered (and the children of the dropped model's reference refer to it, and every use of
+the dropped model belongs to a model of the module), then after the re-pointing NO use names the dropped model:
+the module never names a class that is no longer written. Any number of uses, any store. -/
+theorem redirect_leaves_no_use (p : User → Bool) (dup target : Ref) (s s' : Store) (uses : List User)
+    (hne : dup ≠ target) (hwf : ∀ u ∈ s.kids dup, s.refOf u = some dup)
+    (hreg : registered s uses = true) (hp : ∀ u ∈ uses, s.refOf u = some dup → p u = true)
+    (h : redirect p dup target s = some s') : naming s' uses dup = [] := by
+  obtain ⟨s'', h', a, _, c, _⟩ := repointList_spec p dup target hne (s.kids dup) s (fun u hu => Or.inl (hwf u hu))
+  have : s'' = s' := Option.some.inj (h'.symm.trans h)
+  subst this
+  simp only [naming, List.filter_eq_nil_iff]
+  intro u hu
+  by_cases hd : s.refOf u = some dup
+  · have hk : u ∈ s.kids dup := by
+      have := (List.all_eq_true.mp hreg) u hu
+      simpa [hd] using this
+    have := (a u hk (hp u hu hd)).1
+    rw [this]
+    simpa using fun e : target = dup => hne e.symm
+  · have hk : u ∉ s.kids dup := fun hk => hd (hwf u hk)
+    rw [c u (Or.inl hk)]
+    simpa using hd
+
+/-- non-vacuity: reference 1 (dropped) is used by the members 10 and 11 and by 12 inside a container; reference 0
+(kept) by 5; every use is registered and takes part -/
+example : let s := Store.ofLists [(0, [5]), (1, [10, 11, 12])] [(5, some 0), (10, some 1), (11, some 1), (12, some 1)]
+    (1 : Ref) ≠ 0 ∧ (∀ u ∈ s.kids 1, s.refOf u = some 1) ∧ registered s [5, 10, 11, 12] = true ∧
+    (∀ u ∈ [5, 10, 11, 12], s.refOf u = some 1 → (fun _ => true) u = true) ∧
+    (redirect (fun _ => true) 1 0 s).map (fun s' => naming s' [5, 10, 11, 12] 0) = some [5, 10, 11, 12] := by decide
+
+/-- …and the bookkeeping stays intact for the next pass: with pairwise distinct children, every use is still
+registered after the re-pointing. -/
+theorem redirect_keeps_registered (p : User → Bool) (dup target : Ref) (s s' : Store) (uses : List User)
+    (hne : dup ≠ target) (hwf : ∀ u ∈ s.kids dup, s.refOf u = some dup) (hnd : (s.kids dup).Nodup)
+    (hreg : registered s uses = true) (h : redirect p dup target s = some s') : registered s' uses = true := by
+  obtain ⟨s'', h', kd, kt, ru⟩ := repointList_exact p dup target hne (s.kids dup) s hnd hwf
+  obtain ⟨s3, h3, a, _, c, d⟩ := repointList_spec p dup target hne (s.kids dup) s (fun u hu => Or.inl (hwf u hu))
+  have e1 : s'' = s' := Option.some.inj (h'.symm.trans h)
+  have e2 : s3 = s' := Option.some.inj (h3.symm.trans h)
+  subst e1
+  subst e2
+  rw [registered, List.all_eq_true]
+  intro u hu
+  have hru := (List.all_eq_true.mp hreg) u hu
+  by_cases hm : u ∈ s.kids dup ∧ p u = true
+  · obtain ⟨r1, _, r3⟩ := a u hm.1 hm.2
+    simp [r1, r3]
+  · have hsame : s3.refOf u = s.refOf u := by
+      apply c
+      by_cases hk : u ∈ s.kids dup
+      · exact Or.inr (by simpa using fun hp => hm ⟨hk, hp⟩)
+      · exact Or.inl hk
+    rw [hsame]
+    cases hr : s.refOf u with
+    | none => rfl
+    | some r =>
+      rw [hr] at hru
+      have hin : u ∈ s.kids r := by simpa using hru
+      by_cases hrd : r = dup
+      · subst hrd
+        have hpu : p u = false := by simpa using fun hp => hm ⟨hin, hp⟩
+        simp [kd, hin, hpu]
+      · by_cases hrt : r = target
+        · subst hrt
+          simp [kt, hin]
+        · simp [d r hrd hrt, hin]
+
+example : (Store.ofLists [(0, [5]), (1, [10, 11])] [(5, some 0), (10, some 1), (11, some 1)]).kids 1 = [10, 11] ∧
+    [10, 11].Nodup := by decide
+
+/-- WITNESS FAMILY (what a `DataType` made by `.copy()` does): a use of the dropped model that is NOT among the
+children of its reference — or that does not take part, because its `parent` chain does not lead to a model of
+the module — still names the dropped model after the pass, whatever else is in the store. -/
+theorem unregistered_use_left_behind (p : User → Bool) (dup target : Ref) (s s' : Store) (u : User)
+    (hne : dup ≠ target) (hwf : ∀ u ∈ s.kids dup, s.refOf u = some dup)
+    (hu : s.refOf u = some dup) (hout : u ∉ s.kids dup ∨ p u = false)
+    (h : redirect p dup target s = some s') : s'.refOf u = some dup := by
+  obtain ⟨s'', h', _, _, c, _⟩ := repointList_spec p dup target hne (s.kids dup) s (fun u hu => Or.inl (hwf u hu))
+  have : s'' = s' := Option.some.inj (h'.symm.trans h)
+  subst this
+  rw [c u hout, hu]
+
+/-- the concrete witness: the member 10 of the base class is registered with the dropped enum 1, the copy 11 in the
+subclass is not; `registered` says so, and after the pass the subclass still names the dropped enum -/
+theorem unregistered_use_witness :
+    let s := Store.ofLists [(0, [5]), (1, [10])] [(5, some 0), (10, some 1), (11, some 1)]
+    registered s [5, 10, 11] = false ∧ unregistered s [5, 10, 11] = [11] ∧
+    (redirect (fun _ => true) 1 0 s).map (fun s' => naming s' [5, 10, 11] 1) = some [11] := by decide
+
+end RefChildren
 
 end Dcg.Props.C14
